@@ -107,6 +107,9 @@ func ruleCkRep(pkgs ...string) func(p *Prog, r *Report) {
 					if ck == nil {
 						continue
 					}
+					if spillOfParameter(al) {
+						continue // the local copy of a value receiver or parameter: no new object
+					}
 					n++
 					key := fmt.Sprintf("%s:%s:alloc(%s)", rule, FnName(fn), named.Obj().Name())
 					ret := validatedOnAllPaths(p, fn, al, b, i+1, ck, 0)
@@ -900,4 +903,27 @@ func staticCallSites(p *Prog, fn *ssa.Function, pkg string) int {
 		}
 	}
 	return n
+}
+
+// spillOfParameter: a stack slot that only ever holds a parameter of the
+// function (the compiler's copy of a by-value receiver or argument whose
+// address is taken) and does not escape.
+func spillOfParameter(al *ssa.Alloc) bool {
+	if al.Heap {
+		return false
+	}
+	refs := al.Referrers()
+	if refs == nil {
+		return false
+	}
+	n := 0
+	for _, ref := range *refs {
+		if st, ok := ref.(*ssa.Store); ok && st.Addr == ssa.Value(al) {
+			if _, isPrm := st.Val.(*ssa.Parameter); !isPrm {
+				return false
+			}
+			n++
+		}
+	}
+	return n == 1
 }
